@@ -441,8 +441,8 @@ func (g *gen) expr(t *Type, d int) *Expr {
 			return eBin(Choose(g.r, []string{"<", ">", "<=", ">="}), g.expr(tInt, d-1), g.expr(tInt, d-1), tBool)
 		}})
 		if g.has(FEq) {
-			alts = append(alts, alt{2, func() *Expr {
-				et := g.dataType(1)
+			alts = append(alts, alt{3, func() *Expr {
+				et := g.dataType(2)
 				k := EEq
 				if g.r.Bool() {
 					k = ENeq
@@ -840,7 +840,19 @@ func (g *gen) extCall(t *Type, d int) *Expr {
 	if len(cands) == 0 {
 		return nil
 	}
-	sig := Choose(g.r, cands)
+	// functions with a specific result type are rarer candidates than the generic projections
+	// (Head, Last, Item, Fst, Snd, Fold fit every type): weigh them up
+	var weighted []*ExtSig
+	for _, sg := range cands {
+		w := 1
+		if sg.Ret.K != TVar {
+			w = 5
+		}
+		for k := 0; k < w; k++ {
+			weighted = append(weighted, sg)
+		}
+	}
+	sig := Choose(g.r, weighted)
 	if e := g.callbackFirst(sig, t, d); e != nil {
 		return e
 	}
@@ -1514,6 +1526,13 @@ func (g *gen) block(t *Type, d int, maxStmts int) *Block {
 		}
 	}
 	b.E = g.expr(t, d)
+	if len(b.Stmts) > 0 && b.Stmts[0].K == SDo && startsWithInterp(b.Stmts[0].E) {
+		// fc misjudges the column of a $"…" token: keep it off the first line of a multi-line block
+		b.Stmts = append([]*Stmt{{K: SDo, E: eExt("frt.Println", []*Expr{eStr(g.tag())}, tUnit)}}, b.Stmts...)
+		for i := range binders {
+			binders[i].idx++
+		}
+	}
 	// every binder of this block is used: add an observation at the end for the unused ones
 	if g.prof.Hazard != "unused-binder" || true {
 		for _, bd := range binders {
@@ -1864,7 +1883,8 @@ func (g *gen) program() *Prog {
 
 func (prof Profile) checkOpts() CheckOpts {
 	return CheckOpts{Tiny: prof.Tiny, AllowExtPartial: prof.Features&FExtPartial != 0,
-		AllowUnused: prof.Hazard == "unused-binder", AllowUnitTypeVar: prof.Hazard == "unit-typevar"}
+		AllowUnused: prof.Hazard == "unused-binder", AllowUnitTypeVar: prof.Hazard == "unit-typevar",
+		AllowInterpStart: prof.Hazard == "interp-block-start"}
 }
 
 // GenProgram returns a well-typed, terminating, deterministic program of the profile.
@@ -1980,6 +2000,15 @@ func (g *gen) hazardProgram() *Prog {
 		mp := eExt("slice.Map", []*Expr{eVar("shower", tFun([]*Type{tInt}, tUnit)), xs}, tSlice(tUnit))
 		p.Main.Stmts = append(p.Main.Stmts, &Stmt{K: SLet, Name: r, E: mp},
 			&Stmt{K: SDo, E: eExt("frt.Printf1", []*Expr{eStr("%d\n"), eExt("slice.Length", []*Expr{eVar(r, tSlice(tUnit))}, tInt)}, tUnit)})
+	case "interp-block-start":
+		// a block of two lines whose first token is $"…"
+		m := g.fresh("m")
+		blk := &Block{Stmts: []*Stmt{{K: SDo, E: &Expr{K: EPipe, T: tUnit, Args: []*Expr{
+			{K: EInterp, T: tString, Parts: []Part{{Text: "m="}, {IsHole: true, Text: m}}},
+			eExt("frt.Println", nil, tFun([]*Type{tString}, tUnit))}}}},
+			E: eExt("frt.Println", []*Expr{eStr(g.tag())}, tUnit)}
+		p.Main.Stmts = append(p.Main.Stmts, &Stmt{K: SLet, Name: m, E: eInt(g.intLit())},
+			&Stmt{K: SDo, E: &Expr{K: EIfOnly, T: tUnit, Args: []*Expr{eBin("<", eVar(m, tInt), eInt(int64(g.r.Intn(3))), tBool)}, Blocks: []*Block{blk}}})
 	default:
 		panic("unknown hazard " + hz)
 	}
